@@ -26,7 +26,8 @@ Definition accepts_sig (sg : sigspec) (a : args) (k : kwargs) : bool :=
   && forallb (fun p => snd p || mem_str (fst p) knames) (sg_kwonly sg).
 
 (* ---- the world: a journal of body invocations, each with the length of the wrappers' journal at that moment *)
-Definition jrec := (callee * args * kwargs * (nat * Z))%type.
+(* stamp: number of prints / warnings so far, num_calls of every count_calls wrapper (outermost first) *)
+Definition jrec := (callee * args * kwargs * (nat * list Z))%type.
 Definition jst2 := list jrec.
 
 Definition count2 (c : callee) (j : jst2) : nat :=
@@ -39,7 +40,7 @@ Record fspec := { f_iscoro : bool; f_sig : sigspec; f_outs : list out; f_tail : 
 Definition xid_of (c : callee) (i : nat) : xid := XId (match c with CFunc => i | COther => 1000 + i end).
 
 (* the body: scripted outcome per invocation index *)
-Definition jbase2 (c : callee) (f : fspec) (stamp : nat * Z) : base jst2 := fun a k j =>
+Definition jbase2 (c : callee) (f : fspec) (stamp : nat * list Z) : base jst2 := fun a k j =>
   if accepts_sig (f_sig f) a k then
     let i := count2 c j in
     let j' := j ++ [(c, a, k, stamp)] in
@@ -49,18 +50,18 @@ Definition jbase2 (c : callee) (f : fspec) (stamp : nat * Z) : base jst2 := fun 
     end
   else (RExc TypeErrorC (XFresh 6), j).
 
-Definition run2 (c : callee) (f : fspec) : csem jst2 := fun a k s =>
+Definition run2 (c : callee) (f : fspec) (cids : list nat) : csem jst2 := fun a k s =>
   let n := List.length (filter (fun e => match e with EvCount _ => false | _ => true end) (ws_log (ws s))) in
-  let (r, j') := jbase2 c f (n, ws_cnt (ws s)) a k (cs s) in (r, Build_st j' (ws s)).
+  let (r, j') := jbase2 c f (n, map (fun id => cnt_get id (ws_cnt (ws s))) cids) a k (cs s) in (r, Build_st j' (ws s)).
 
 (* a plain def, or a plain async def: binding at call time, the body when awaited *)
-Definition desc2 (c : callee) (f : fspec) : cdesc jst2 :=
+Definition desc2 (c : callee) (f : fspec) (cids : list nat) : cdesc jst2 :=
   if f_iscoro f then
     {| c_iscoro := true; c_mode := true;
        c_call := fun a k s => if accepts_sig (f_sig f) a k then (ROk (VPending c a k), s) else (RExc TypeErrorC (XFresh 6), s);
-       c_resume := run2 c f |}
+       c_resume := run2 c f cids |}
   else
-    {| c_iscoro := false; c_mode := false; c_call := run2 c f; c_resume := fun _ _ s => (RExc TypeErrorC (XFresh 0), s) |}.
+    {| c_iscoro := false; c_mode := false; c_call := run2 c f cids; c_resume := fun _ _ s => (RExc TypeErrorC (XFresh 0), s) |}.
 
 (* ---- values ------------------------------------------------------------------------------------------- *)
 (* `==` of the harness objects: VObj n is a fresh list [n mod 10] *)
@@ -76,16 +77,38 @@ Record lspec := { l_name : dname; l_rv : val; l_rules : list (string * string);
                   l_kwstrip : option nat;       (* require_kwargs: None = no test (dunder / *args), Some n = n leading positionals allowed *)
                   l_dir : bool }.               (* overrides: the name is in dir(base_class) *)
 
-Definition mk_cx (l : lspec) (other : cdesc jst2) : ctx jst2 :=
+Definition mk_cx (l : lspec) (other : cdesc jst2) (id : nat) : ctx jst2 :=
   Build_ctx (fun _ => other) (fun _ => l_rv l) (l_rules l) veq (fun a b => negb (veq a b))
             (fun a _ => match l_kwstrip l with
                         | None => None
                         | Some n => if Nat.ltb n (List.length a) then Some PCallWithArgsC else None
                         end)
-            raise_warning_prog.
+            raise_warning_prog id.
 
-Definition mk_levels (ls : list lspec) (other : fspec) : list (level jst2) :=
-  map (fun l => (l_name l, mk_cx l (desc2 COther other), jbase2 COther other (0, 0%Z))) ls.
+(* head = outermost; the identity of a level is its height above the function, so it survives further decoration *)
+Fixpoint mk_levels (ls : list lspec) (other : cdesc jst2) (go : base jst2) : list (level jst2) :=
+  match ls with
+  | [] => []
+  | l :: r => (l_name l, mk_cx l other (List.length r), go) :: mk_levels r other go
+  end.
+
+Fixpoint count_ids (ls : list lspec) : list nat :=
+  match ls with
+  | [] => []
+  | l :: r => match l_name l with NCountCalls => [List.length r] | _ => [] end ++ count_ids r
+  end.
+
+(* creating the wrapper objects of the levels `fresh` (a prefix of all levels): num_calls := the initial value *)
+Fixpoint init_counters (ls : list lspec) (fresh : nat) (w : wst) : wst :=
+  match fresh, ls with
+  | S n, l :: r =>
+    let w' := init_counters r n w in
+    match d_counter_init (deco_of (l_name l)) with
+    | Some z => {| ws_log := ws_log w'; ws_cnt := cnt_set (List.length r) z (ws_cnt w'); ws_filter := ws_filter w'; ws_warned := ws_warned w' |}
+    | None => w'
+    end
+  | _, _ => w
+  end.
 
 (* does the decorated callable carry the attributes of the innermost function: every level hands back the callable
    itself or a wrapper with @wraps *)
@@ -158,15 +181,17 @@ Definition enc_res (r : res) : list Z :=
   end.
 
 Definition NAMES : list string :=
-  ["self"; "p0"; "p1"; "p2"; "p3"; "q0"; "q1"; "q2"; "x0"; "x1"; "x2"; "old0"; "old1"; "old2"; "cls"]%string.
+  ["self"; "p0"; "p1"; "p2"; "p3"; "q0"; "q1"; "q2"; "x0"; "x1"; "x2"; "old0"; "old1"; "old2"; "cls";
+   "func"; "args"; "kwargs"; "wrapper"; "f"; "result"; "value"; "other"; "k"; "v"; "return_value"; "decorated_func";
+   "call"; "original_result"; "other_func"; "start_time"; "async_wrapper"; "param_dict"; "result_kwargs"]%string.
 Fixpoint index_of (s : string) (l : list string) (i : nat) : nat :=
   match l with [] => 99%nat | x :: l' => if String.eqb x s then i else index_of s l' (S i) end.
 Definition enc_name (s : string) : Z := zn (index_of s NAMES 0).
 
 Definition enc_jrec (r : jrec) : list Z :=
   match r with
-  | (c, a, k, (n, cnt)) =>
-    [enc_callee c; zn n; cnt; zn (List.length a)] ++ flat_map enc_val a ++ [zn (List.length k)]
+  | (c, a, k, (n, cnts)) =>
+    [enc_callee c; zn n; zn (List.length cnts)] ++ cnts ++ [zn (List.length a)] ++ flat_map enc_val a ++ [zn (List.length k)]
     ++ flat_map (fun kv => enc_name (fst kv) :: enc_val (snd kv)) k
   end.
 Definition enc_ev (e : wevent) : Z :=
@@ -174,16 +199,16 @@ Definition enc_ev (e : wevent) : Z :=
 Definition enc_filter (f : faction) : Z :=
   match f with FaAlways => 0 | FaDefault => 1 | FaError => 2 | FaIgnore => 3 | FaOnce => 4 | FaModule => 5 end.
 
-Definition ws0 (flt : faction) : wst := {| ws_log := []; ws_cnt := 0; ws_filter := flt; ws_warned := false |}.
+Definition ws0 (flt : faction) : wst := {| ws_log := []; ws_cnt := []; ws_filter := flt; ws_warned := false |}.
 
 (* run a history, collecting per call: result, counter after the call *)
-Fixpoint run_hist (h : csem jst2) (calls : list (args * kwargs)) (s : st jst2) : list Z * st jst2 :=
+Fixpoint run_hist (h : csem jst2) (cids : list nat) (calls : list (args * kwargs)) (s : st jst2) : list Z * st jst2 :=
   match calls with
   | [] => ([], s)
   | (a, k) :: r =>
     let (res1, s1) := h a k s in
-    let (rest, s2) := run_hist h r s1 in
-    (enc_res res1 ++ [ws_cnt (ws s1)] ++ rest, s2)
+    let (rest, s2) := run_hist h cids r s1 in
+    (enc_res res1 ++ map (fun id => cnt_get id (ws_cnt (ws s1))) cids ++ rest, s2)
   end.
 
 Fixpoint run_hist_spec (g : base jst2) (calls : list (args * kwargs)) (j : jst2) : list Z * jst2 :=
@@ -195,33 +220,51 @@ Fixpoint run_hist_spec (g : base jst2) (calls : list (args * kwargs)) (j : jst2)
     (enc_res res1 ++ rest, j2)
   end.
 
-(* model: [0] ++ per call (res(3), counter) ++ [-1] ++ journal ++ [-2] ++ wrapper journal ++ [-3; filter after]
-          ++ [-4; attrs from callee; iscoroutinefunction]
+(* A history with decoration as an operation: the function is decorated with ls, called (calls), then the resulting
+   callable is decorated again with ls2 (by call, on top) and called (calls2).
+   model: [0] ++ per call of phase 1 (res(3), num_calls of every count_calls wrapper) ++ [-6] ++ the same for phase 2
+          ++ [-1] ++ journal ++ [-2] ++ wrapper journal ++ [-3; filter after]
+          ++ [-4; attrs from callee; iscoroutinefunction (after phase 1); the same two after the second decoration]
           or [9; class] when the decoration raises
    then [-5] then the specification:
-          [0 | 1 (no claim) ; iscoro] ++ per call res(3) ++ [-1] ++ journal      or [9; class]                   *)
-Definition eval_case (ls : list lspec) (f : fspec) (other : fspec) (flt : faction) (calls : list (args * kwargs)) : list Z :=
-  let levels := mk_levels ls other in
-  let base := desc2 CFunc f in
+          [0 | 1 (no claim); iscoro] ++ per call res(3) ++ [-6] ++ per call res(3) ++ [-1] ++ journal   or [9; class]   *)
+Definition eval_case (ls : list lspec) (f : fspec) (other : fspec) (flt : faction) (calls : list (args * kwargs))
+           (ls2 : list lspec) (calls2 : list (args * kwargs)) : list Z :=
+  let b (x : bool) : Z := if x then 1 else 0 in
+  let all := ls2 ++ ls in
+  let go := jbase2 COther other (0%nat, []) in
   let model :=
-    match decorate_all ls with
+    match decorate_all all with
     | Some e => [9; enc_exn e]
     | None =>
-      let top := stack_callee levels base in
-      let (rs, s) := run_hist (use_callee top) calls (Build_st [] (ws0 flt)) in
-      let attrs_ok := stack_attrs levels base in
-      [0] ++ rs ++ [-1] ++ flat_map enc_jrec (cs s) ++ [-2] ++ map enc_ev (ws_log (ws s)) ++ [-3; enc_filter (ws_filter (ws s))]
-      ++ [-4; if attrs_ok then 1 else 0; if c_iscoro top then 1 else 0]
+      let cids1 := count_ids ls in
+      let cids2 := count_ids all in
+      let lv1 := mk_levels ls (desc2 COther other cids1) go in
+      let lv2 := mk_levels all (desc2 COther other cids2) go in
+      let base1 := desc2 CFunc f cids1 in
+      let base2 := desc2 CFunc f cids2 in
+      let top1 := stack_callee lv1 base1 in
+      let top2 := stack_callee lv2 base2 in
+      let s0 := Build_st [] (init_counters ls (List.length ls) (ws0 flt)) in
+      let (rs1, s1) := run_hist (use_callee top1) cids1 calls s0 in
+      let s1' := Build_st (cs s1) (init_counters all (List.length ls2) (ws s1)) in
+      let (rs2, s2) := run_hist (use_callee top2) cids2 calls2 s1' in
+      [0] ++ rs1 ++ [-6] ++ rs2 ++ [-1] ++ flat_map enc_jrec (cs s2) ++ [-2] ++ map enc_ev (ws_log (ws s2))
+      ++ [-3; enc_filter (ws_filter (ws s2))]
+      ++ [-4; b (stack_attrs lv1 base1); b (c_iscoro top1); b (stack_attrs lv2 base2); b (c_iscoro top2)]
     end in
   let spec :=
-    match spec_decorate_all ls with
+    match spec_decorate_all all with
     | Some e => [9; enc_exn e]
     | None =>
-      match spec_ok ls (f_iscoro f) (f_iscoro other) with
-      | None => [1; 0]
-      | Some coro =>
-        let (rs, j) := run_hist_spec (stack_spec levels (jbase2 CFunc f (0%nat, 0))) calls [] in
-        [0; if coro then 1 else 0] ++ rs ++ [-1] ++ flat_map enc_jrec j
+      match spec_ok ls (f_iscoro f) (f_iscoro other), spec_ok all (f_iscoro f) (f_iscoro other) with
+      | Some _, Some coro =>
+        let g := jbase2 CFunc f (0%nat, []) in
+        let dummy := desc2 COther other [] in
+        let (rs1, j1) := run_hist_spec (stack_spec (mk_levels ls dummy go) g) calls [] in
+        let (rs2, j2) := run_hist_spec (stack_spec (mk_levels all dummy go) g) calls2 j1 in
+        [0; b coro] ++ rs1 ++ [-6] ++ rs2 ++ [-1] ++ flat_map enc_jrec j2
+      | _, _ => [1; 0]
       end
     end in
   model ++ [-5] ++ spec.
@@ -229,12 +272,12 @@ Definition eval_case (ls : list lspec) (f : fspec) (other : fspec) (flt : factio
 (* ---- classes decorated through for_all_methods ----------------------------------------------------------- *)
 (* [does the access reach the function: 0/1] ++ res(3) ++ [-1] ++ journal ++ [-5] ++ the same for the undecorated class *)
 Definition eval_class (n : dname) (f : fspec) (m : member) (acc : access) (self cls0 sub : val) (a : args) (k : kwargs) : list Z :=
-  let fn := desc2 CFunc f in
+  let fn := desc2 CFunc f [] in
   let l := {| l_name := n; l_rv := VNone; l_rules := []; l_kwstrip := None; l_dir := true |} in
   let s0 := Build_st [] (ws0 FaDefault) in
   let show (r : res * st jst2) := enc_res (fst r) ++ [-1] ++ flat_map enc_jrec (cs (snd r)) in
   (match deco_args forall_cfg m acc self cls0 sub a with
-   | Some _ => [1] ++ show (class_call forall_cfg n (mk_cx l fn) fn m acc self cls0 sub a k s0)
+   | Some _ => [1] ++ show (class_call forall_cfg n (mk_cx l fn 0) fn m acc self cls0 sub a k s0)
    | None => [0]
    end) ++ [-5] ++
   (match orig_args m acc self cls0 sub a with
